@@ -9,6 +9,15 @@ M = "harness.tzf"
 def cells(tier, seed):
     q = tier == "quick"
     cs = []
+    from harness import c08, posixtz
+    specs = [s for s in c08.specs(tier) if s.get("dst") and not (posixtz.rule_time(s["end"]) < posixtz.dstoff(s) - s["stdoff"] or posixtz.rule_time(s["start"]) >= 86400)]
+    for spec in (specs[:4] if q else specs):
+        for kind in ("tzstr", "tzrange", "tzlocal", "tzical:rrule"):
+            if kind.startswith("tzical") and not (spec["start"][0] == "M" and spec["end"][0] == "M"):
+                continue
+            y = 1972 if kind.startswith("tzical") else 2024
+            cs.append(Cell("harness.c08", "h_rule", dict(kind=kind, spec=spec, year=y, wallmode=True),
+                           name="%s[%s]@%d/wall" % (kind, posixtz.render(spec), y), budget_s=120, per_path_s=20, max_violations=50))
     for (n, p) in tzf.zone_list(tier, seed):
         cs.append(Cell(M, "h_wall", dict(name=n, path=p), name="wall[%s]" % n,
                        budget_s=200 if q else 900, per_path_s=30, max_violations=600))
